@@ -19,14 +19,14 @@ IndInv ==
 Init0 == PInit(0)
 
 IndInit ==
-  /\ tasks = Gen(3) /\ rq = Gen(4) /\ phase = Gen(1) /\ cur = Gen(1) /\ atTop = Gen(1)
+  /\ tasks = Gen(3) /\ rq = Gen(4) /\ phase = Gen(1) /\ cur = Gen(1) /\ curGen = Gen(1) /\ atTop = Gen(1)
   /\ wokeDuring = Gen(1) /\ pendingWake = Gen(3) /\ lens = Gen(1)
   /\ IndInv
 
 Next ==
   \/ \E n \in 0..3 : Settle(n)
   \/ Cleared(0, 0)
-  \/ \E k \in Keys : Spawn(k) \/ Pop(k) \/ Poll(k) \/ Wake(k)
+  \/ \E k \in Keys, g \in {0, 1} : Spawn(k) \/ Pop(k) \/ Poll(k, g) \/ Wake(k, g)
   \/ Missing \/ AbortedTask
   \/ \E k \in Keys, r \in BOOLEAN, lone \in BOOLEAN, f \in BOOLEAN : Polled(k, r, lone, f)
   \/ \E nt \in 0..3 : Settled(0, 0, nt)
